@@ -171,7 +171,11 @@ func c16(p *Pkg, _ *Pkg, payload json.RawMessage, res *Result) {
 									bad("unrouted-trace", in, tr, "no middleware entered for a request that matches no operation")
 								}
 							case is == "cors":
-								res.Count("cors", 1) // don't-care (DESIGN §11): bypass or wrap
+								// a preflight matches no operation: like every unrouted request it bypasses the middlewares
+								res.Count("cors", 1)
+								if tr != "cors" {
+									bad("cors-trace", in, tr, "the CORS preflight bypasses the middlewares (it matches no operation)")
+								}
 							default:
 								bad("odd-trace", in, tr, "")
 							}
